@@ -81,21 +81,22 @@ theorem step_inv (a : ArraySized) (op : Spec.SSeq.Op Elem) (m : Mem) (h : a.Inv)
 theorem step_nofault (a : ArraySized) (op : Spec.SSeq.Op Elem) (m : Mem) (h : a.Inv)
     (hw : OpWF a.dataLen op) : (a.step op m).2.2.fault = m.fault := (step_refines a op m h hw).2.2.2.2.2.1.2.1
 
-/-- the array owns its two blocks before and after every call of the core API -/
+/-- the array owns its two blocks (of its own triple) before and after every call of the core API -/
 theorem step_ledger (a : ArraySized) (op : Spec.SSeq.Op Elem) (m : Mem) (h : a.Inv)
-    (hw : OpWF a.dataLen op) : (a.step op m).2.2.live = m.live := (step_refines a op m h hw).2.2.2.2.2.1.1
+    (hw : OpWF a.dataLen op) : own (a.step op m).2.2 a.triple = own m a.triple := (step_refines a op m h hw).2.2.2.2.2.1.1
 
 /-- a refused allocation: status `CC_ERR_ALLOC`, physical state unchanged, ledger unchanged -/
 theorem step_atomic (a : ArraySized) (op : Spec.SSeq.Op Elem) (m : Mem) (h : a.Inv)
     (hw : OpWF a.dataLen op) (hst : (a.step op m).1.st = some .errAlloc) :
-    (a.step op m).2.1 = a ∧ (a.step op m).2.2.live = m.live ∧ (a.step op m).2.2.fault = m.fault ∧
-    m.alloc.1 = false := by
+    (a.step op m).2.1 = a ∧ own (a.step op m).2.2 a.triple = own m a.triple ∧ (a.step op m).2.2.fault = m.fault ∧
+    (m.allocT a.triple).1 = false := by
   obtain ⟨_, _, _, _, _, h6, h7, h8, _⟩ := step_refines a op m h hw
   have hr : a.refusal op m = some .errAlloc := by unfold refusal; rw [hst]
   exact ⟨h7 (by rw [hr]; simp), h6.1, h6.2.1, h8 hr⟩
 
-/-- every allocation and release of a call goes through the configured triple -/
-theorem step_libc (a : ArraySized) (op : Spec.SSeq.Op Elem) (m : Mem) (h : a.Inv)
-    (hw : OpWF a.dataLen op) : (a.step op m).2.2.libc = m.libc := (step_refines a op m h hw).2.2.2.2.2.1.2.2
+/-- every allocation and release of a call goes through the array's own triple: the counters of the
+other allocator are untouched -/
+theorem step_other (a : ArraySized) (op : Spec.SSeq.Op Elem) (m : Mem) (h : a.Inv)
+    (hw : OpWF a.dataLen op) : Other a.triple m (a.step op m).2.2 := (step_refines a op m h hw).2.2.2.2.2.1.2.2
 
 end CC.ArraySized
